@@ -3,9 +3,9 @@
    (0 = arbitrary precision), decimal scale; ranges as exact decimal numbers (Dec.tla).
    A value is [neg, d]: sign and magnitude digits; for fixed-point types the magnitude is the *scaled*
    integer (value * 10^scale). Zero is never negative. *)
-EXTENDS Dec
+EXTENDS Dec, TLC
 
-T(s, f, b, sc) == [signed |-> s, fixed |-> f, bits |-> b, scale |-> sc]
+T(s, f, b, sc) == [signed |-> s, fixed |-> f, bits |-> b, scale |-> sc]      \* bits = 0: arbitrary precision
 TypeInfo == [
   Int8 |-> T(TRUE, FALSE, 8, 0), Int16 |-> T(TRUE, FALSE, 16, 0), Int32 |-> T(TRUE, FALSE, 32, 0), Int64 |-> T(TRUE, FALSE, 64, 0),
   Int128 |-> T(TRUE, FALSE, 128, 0), Int256 |-> T(TRUE, FALSE, 256, 0), Int |-> T(TRUE, FALSE, 0, 0),
@@ -17,8 +17,12 @@ TypeInfo == [
 TypeNames == DOMAIN TypeInfo
 
 \* largest magnitude on the positive / negative side
-MaxMag(ti) == IF ti.signed THEN Pred(Pow2(ti.bits - 1)) ELSE Pred(Pow2(ti.bits))
-MinMag(ti) == IF ti.signed THEN Pow2(ti.bits - 1) ELSE << >>
+\* (tabulated once per (signed, bits): the powers of two are long digit sequences)
+Widths == {8, 16, 32, 64, 128, 256}
+MaxTab == TLCEval([sg \in BOOLEAN |-> [b \in Widths |-> IF sg THEN Pred(Pow2(b - 1)) ELSE Pred(Pow2(b))]])
+MinTab == TLCEval([b \in Widths |-> Pow2(b - 1)])
+MaxMag(ti) == MaxTab[ti.signed][ti.bits]
+MinMag(ti) == IF ti.signed THEN MinTab[ti.bits] ELSE << >>
 InRange(ti, neg, d) ==
   LET z == Len(Strip(d)) = 0 IN
   IF ti.bits = 0 THEN ti.signed \/ ~neg \/ z
